@@ -30,21 +30,28 @@ var (
 
 func register() {
 	registerOnce.Do(func() {
-		client.RegisterTest(implType, func(ctx context.Context, d client.Destination) (client.Impl, error) {
-			w := curWorld.Load()
-			if w == nil {
-				return nil, errors.New("clientprop: no scenario is running")
-			}
-			return w.newImpl(ctx, d)
-		})
-		client.RegisterTest(decoyType, func(ctx context.Context, d client.Destination) (client.Impl, error) {
-			w := curWorld.Load()
-			if w == nil {
-				return nil, errors.New("clientprop: no scenario is running")
-			}
-			return nil, w.scriptedErr("decoy", w.sc.Decoy, errScriptDecoy)
-		})
+		client.RegisterTest(implType, scriptCtor)
+		client.RegisterTest(decoyType, decoyCtor)
 	})
+}
+
+// scriptCtor / decoyCtor are the registered constructors (named so that the
+// parts that own the whole registry for the length of a case, multi.go, can put
+// them back).
+func scriptCtor(ctx context.Context, d client.Destination) (client.Impl, error) {
+	w := curWorld.Load()
+	if w == nil {
+		return nil, errors.New("clientprop: no scenario is running")
+	}
+	return w.newImpl(ctx, d)
+}
+
+func decoyCtor(ctx context.Context, d client.Destination) (client.Impl, error) {
+	w := curWorld.Load()
+	if w == nil {
+		return nil, errors.New("clientprop: no scenario is running")
+	}
+	return nil, w.scriptedErr("decoy", w.sc.Decoy, errScriptDecoy)
 }
 
 var (
